@@ -648,7 +648,6 @@ theorem sel_f80_bool (F : FpuSpec) (s : FState) (b : BitVec 80) (rest : List (Bi
 
 theorem run_nil (F : FpuSpec) (s : FState) : run F [] s = some s := rfl
 
-set_option maxHeartbeats 1000000 in
 /-- **the instruction list chosen for (from, to) implements the C11 conversion**, for every machine state and every FPU
     meeting the contract, outside the regions of `inKnownRegion` -/
 theorem select_partial (F : FpuSpec) (frm to : ATy) (s : FState) (x y : AVal)
